@@ -25,6 +25,7 @@ RULE = ("passwords from a generator biased to blanks (inside, leading), non-ASCI
 RULE += ("  " + "Also: passwords with blanks at the ends and with latin-1 letters; connection limits reached; back-end failure, unknown verb, undecodable bytes after login; reset right after PASS; user managers whose authenticate times out or fails; shutdown with a password session connected; the client's socket_timeout expiring inside PASS; a PASS line in a foreign encoding; tracebacks of records are searched too.")
 RULE += ("  " + 'Also (round 6): aioftp client whose server hangs up without a reply to PASS (user manager raises; scripted server closing silently, inside a reply line, or after bytes that are no reply).')
 RULE += ("  " + 'Also: the whole login and further commands in one burst with a suspending user manager; the connection ending inside the PASS line.')
+RULE += ("  " + 'Also (round 7): a server that asks for the account before (332, then 331) or after the password.')
 ASSUMPTIONS = ["passwords with CR/LF are not carriable by the line protocol and are excluded; blanks at the ends are sent (the server "
                "strips them, so such logins are rejected) and searched for without them",
                "all loggers propagate to the root logger (true for aioftp.client / aioftp.server)"]
